@@ -4,6 +4,15 @@ TRANSLATOR = "/verif/translator (Go, go/ast pattern matching) regenerating coq/G
 HARNESS = "/verif/harness (Go) differential harness: runs the real code, writes coq/Cases/*_cases.v evaluated by vm_compute"
 
 PROPS = {
+    "C13": dict(
+        unknown_keys=["walk.go", "dst.go"],
+        trusted_base=[KERNEL, TRANSLATOR + " (walk.go -> Gen/WalkTbl.v, dst.go -> Gen/Universe.v, go/ast walk.go as reference)", HARNESS,
+                      "reflection-based tree dumper (harness/cmd/hx/treedump.go)"],
+        assumptions=["trees conform to the universe (checked by conformsb on every dumped tree)",
+                     "children walked without a nil check are present (mandatory_okb); C13_nil_mandatory_refuted shows the hypothesis is needed",
+                     "the order in which the files of a Package are walked is Go map order in dst and go/ast alike and is not part of the statement",
+                     "correspondence with go/ast's traversal of the source ast is proved at table level (same fields in the same order) and checked on the implementation by the oracle"],
+    ),
     "C19": dict(
         unknown_keys=["decorations.go"],
         trusted_base=[KERNEL, TRANSLATOR + " (decorations.go -> Gen/DecsIR.v)", HARNESS,
